@@ -429,6 +429,17 @@ pub fn run(rep: &mut Report) {
         for (_, m) in &muts {
             run(m, &mut acc);
         }
+        if !thorough {
+            // the quick menu of stim::mutations flips bits 0 and 7 only: flip the other six as well
+            // (flag bytes such as the CONNECT flags carry one meaning per bit)
+            for i in 0..body.len().min(64) {
+                for bit in 1..7u8 {
+                    let mut m = body.clone();
+                    m[i] ^= 1 << bit;
+                    run(&m, &mut acc);
+                }
+            }
+        }
         if thorough && body.len() <= 12 {
             for (_, m) in &muts {
                 for (_, m2) in crate::stim::mutations("", m, 0) {
@@ -490,7 +501,7 @@ pub fn run(rep: &mut Report) {
     rep.set_cov("connection_recv_inputs", json!(conn_evals));
     rep.set_cov("accepted_by_entry_point", json!(tot.accepted_by_ep));
     rep.set_cov("exhaustive", json!(true));
-    rep.set_cov("rule", json!(format!("every byte string of length <= {full_len} for every parser entry point; every string of length 4..={red_len} over a 24-symbol alphabet; every single mutation{} of every seed body (abstract space with <= 1 deviation); distinct_nontrivial = inputs a parser accepted (each then checked for size / Remaining Length / re-parse / UTF-8 / builder agreement)", if thorough { " and every pair on seeds <= 12 bytes" } else { "" })));
+    rep.set_cov("rule", json!(format!("every byte string of length <= {full_len} for every parser entry point; every string of length 4..={red_len} over a 24-symbol alphabet; every single mutation{} (all eight bit flips per byte, deletion, truncation, body cut / extension, non-minimal length) of every seed body (abstract space with <= 1 deviation); distinct_nontrivial = inputs a parser accepted (each then checked for size / Remaining Length / re-parse / UTF-8 / builder agreement)", if thorough { " and every pair on seeds <= 12 bytes" } else { "" })));
     rep.sample(json!({"entry_points": eps.iter().take(8).map(|e| e.0.clone()).collect::<Vec<_>>()}));
     rep.count("c04.accepted", tot.accepted);
     rep.floor("c04.accepted", 10_000);
